@@ -178,6 +178,20 @@ static std::string sp(Toks& t) {
     return o.str();
 }
 
+
+// augns lin k r c | means (lin x k) | covs (lin x lin*k) | Q (r x c)   -- augmentWithNoise with any (also non-square) matrix
+static std::string augns(Toks& t) {
+    long lin = t.nat(), k = t.nat(), r = t.nat(), c = t.nat();
+    GaussianMixture g(k, lin);
+    g.mean() = t.mat(lin, k); g.covariance() = t.mat(lin, lin * k);
+    MatrixXd Q = t.mat(r, c);
+    t.done();
+    Snapshot s0(g);
+    bool ret = g.augmentWithNoise(Q);
+    Out o; o.s("ok"); o.n(ret ? 1 : 0); o.n((long)g.dim); o.n((long)g.dim_covariance); o.n((long)g.dim_noise); o.s(s0.same(g) ? "same" : "changed");
+    return o.str();
+}
+
 // ---------------------------------------------------------------------------------- unscented transform, linear / noise layouts
 
 // ut mode nx nz ny k a b kap valid | A (ny x (nx+nz)) | bvec (ny) | means (nx x k) | covs (nx x nx*k) | Qin (nz x nz) | [Nadd (ny x ny)]
@@ -494,6 +508,7 @@ int main() {
         if (op == "utw") { out = utw(t); return true; }
         if (op == "utwd") { out = utwd(t); return true; }
         if (op == "sp") { out = sp(t); return true; }
+        if (op == "augns") { out = augns(t); return true; }
         if (op == "ut") { out = ut(t); return true; }
         if (op == "utc") { out = utc(t); return true; }
         if (op == "ukfp") { out = ukfp(t); return true; }
